@@ -16,9 +16,11 @@ ROWS = {
     'mix3': [(1, 1), (1, 2), (1, 3), (1, 4), (1, 5), (1, 6), (2, 1), (2, 2), (2, 3), (2, 7), (3, 1), (3, 2), (3, 3), (3, 4), (3, 5), (3, 6), (3, 8), (3, 9)],
     'thin10': [(5, n) for n in range(1, 11)],
     'bad5': [(1, 1), (1, 2), (1, 3), (1, 4), (1, 5)],
+    'tri2dxy': [(3, 11), (3, 12), (3, 13), (4, 12), (4, 13), (4, 14)],      # frame without a z column
+    'tetzyx': [(8, 21), (8, 22), (8, 23), (8, 24)],                          # frame with the coordinate columns stored as z, y, x between variable columns
     'bigid': [(3000000000, 1), (3000000000, 2), (3000000000, 3), (3000000000, 4)],     # model id 2000000001
 }
-Z3 = {'mix3': True, 'thin10': True, 'bigid': True, 'tri2d': False, 'quad2d': False, 'tet': True, 'tetmix': True, 'mixed': True, 'bad5': True}
+Z3 = {'tri2dxy': False, 'tetzyx': True, 'mix3': True, 'thin10': True, 'bigid': True, 'tri2d': False, 'quad2d': False, 'tet': True, 'tetmix': True, 'mixed': True, 'bad5': True}
 SCOLS = ['S11', 'S22', 'S33', 'S12', 'S13', 'S23']
 DCOLS = ['dx', 'dy', 'dz']
 LC2COLS = [c + '_lc2' for c in SCOLS]       # the stress of a second load case in the same frame, under other column names
@@ -52,7 +54,13 @@ def mesh_frame(k):
         d[name] = [dval(k, r, c) for r in range(len(rows))]
     for c, name in enumerate(LC2COLS):
         d[name] = [sval2(k, r, c) for r in range(len(rows))]
-    return pd.DataFrame(d, index=idx)
+    df = pd.DataFrame(d, index=idx)
+    if k == 'tri2dxy':
+        df = df.drop(columns=['z'])
+    elif k == 'tetzyx':
+        rest = [c for c in df.columns if c not in ('x', 'y', 'z', 'S11', 'dx', 'S22')]
+        df = df[['S11', 'z', 'dx', 'y', 'S22', 'x'] + rest]
+    return df
 
 
 def execute(hist, path):
@@ -148,7 +156,7 @@ def expected(st):
             extra['eset_rows'] = erows
             if nrows:
                 extra['chain_rows'] = {(a, b): [r for r in idx if r[1] in set(nsets[a]) and r[0] in set(esets[b])] for a in nsets for b in esets}
-        exp['geoms'][g] = {**extra, 'index': idx, 'repeatable': True, 'points': list(rec['points']), 'coords': [list(coord(k, n)) for n in rec['points']],
+        exp['geoms'][g] = {**extra, 'index': idx, 'repeatable': True, 'points': list(rec['points']), 'coords': [list(coord(k, n))[:2 if k == 'tri2dxy' else 3] for n in rec['points']],
                            'nsets': nsets, 'esets': esets, 'counters': (len(rec['points']), len(rec['elems']), nset_count, nset_count)}
     for x in st['vars']:
         k = x['mesh']
@@ -283,12 +291,29 @@ def run(chk):
         chk.cov['traces_validated_against_impl'] += tot
         chk.part('replay_two_geometries', histories=tot)
         os.remove(res.dump_path)
+    # frame layouts: a 2-D frame without z column and a 3-D frame with its coordinate columns stored as z, y, x, after / before 3-D geometries and failed attempts
+    res = tlc.run(TLA, os.path.join(SPEC, 'vmap', 'MC_Vmap_layout.cfg'), dump=True, timeout=3000, heap='12g')
+    chk.tlc('MC_Vmap_layout.cfg', res, 'histories over the meshes tet, tri2dxy (no z column), tetzyx (columns z, y, x), bad5: the same properties; every history replayed')
+    if res.violated:
+        chk.machinery.append('model property %s violated: %s' % (res.violated, [s_.get('hist') for s_ in res.trace[-1:]]))
+    if res.dump_path and os.path.exists(res.dump_path):
+        tot = 0
+        for n, nontriv, viol, samples in par.pmap(_replay, [(p, 200 + i, 15 if quick else 100, chk.seed) for i, p in enumerate(par.split_dump(res.dump_path, 64))], chunksize=1):
+            tot += n
+            for x in nontriv:
+                chk.nontrivial(x)
+            for what, case, exp, got in viol:
+                chk.violation(what, case, exp, got, part='replay_layouts')
+        chk.evals(tot)
+        chk.cov['traces_validated_against_impl'] += tot
+        chk.part('replay_layouts', histories=tot)
+        os.remove(res.dump_path)
     xy_only_probe(chk, fs)
     chk.cov['rule'] = ('TLC explores every call history up to MaxDepth over 2 geometry names x 6 catalogue meshes (2-D tri/quad, tet4 with gapped descending ids, tet4 with interleaved rows, mixed tet4+wedge6, an '
                        'unsupported 5-node element), node/element sets (valid, reversed, not a subset), nodal / element-nodal / unknown variables in 2 states, including every failing call; each reachable '
                        'state (= one history) is executed on a fresh VMAPExport file and the file is projected through VMAPImport (+ raw MYSIZE counters) and compared with the specification state, '
                        'values being distinguishable doubles per (mesh, row, column). Non-trivial = history with a failing call or with a variable.')
-    chk.cov['rule'] += ' Variable kinds incl. the known variable from a frame lacking its columns (write-step failure) and with explicit other column names; element sets in descending order, row order of filtered meshes, chained filters; prefix instance: two geometries already in the file plus three calls (seeded sample).'
+    chk.cov['rule'] += ' Variable kinds incl. the known variable from a frame lacking its columns (write-step failure) and with explicit other column names; element sets in descending order, row order of filtered meshes, chained filters; prefix instance: two geometries already in the file plus three calls (seeded sample); layout instance: a 2-D frame without z column and a 3-D frame with columns z, y, x next to 3-D geometries and failed attempts.'
     chk.cov['exhaustive'] = True
     chk.assumptions += ['ids within int32; 2-D meshes carry a constant z column (frames without a z column: see known findings)']
 
